@@ -89,7 +89,7 @@ def ntops(n, rng, tier):
     if n == 4: tops += [[[0, 1], [2, 3], [1, 3], [0, 4]], [[0, 1], [1, 2], [2, 3], [3, 0]], [[0, 1, 2], [2, 3], [3, 4], [4, 1]]]
     if n == 5: tops += [[[0, 1], [1, 2, 3], [3, 4], [4, 5], [5, 2]], [[0], [0, 1], [1, 2], [2, 3], [3]]]
     if n == 6: tops += [[[0, 1], [1, 2], [2, 3], [3, 4], [4, 5], [5, 0]]]
-    for _ in range(2 if tier == "quick" else 12):
+    for _ in range(2 if tier == "quick" else 6):
         t = lab3(rng, n, tier)
         if valid(t): tops.append(t)
     return tops
@@ -99,7 +99,8 @@ def real_groups(tier, seed):
     if tier == "quick":
         cells = [("sse2", "c++14", []), ("avx2", "c++17", []), ("avx512", "c++17", []), ("sse2", "c++17", ["-DFASTOR_DONT_PERFORM_OP_MIN"]), ("avx2", "c++14", ["-DFASTOR_DONT_PERFORM_OP_MIN"])]
     else:
-        cells = [(isa, std, d) for isa in core.ALL_ISAS for std in ("c++14", "c++17") for d in ([], ["-DFASTOR_DONT_PERFORM_OP_MIN"])]
+        cells = [(isa, std, d) for isa in ("sse2", "avx2", "avx512") for std in ("c++14", "c++17") for d in ([], ["-DFASTOR_DONT_PERFORM_OP_MIN"])] + \
+                [(isa, "c++17", []) for isa in ("scalar", "sse42", "avx")]
     groups = []
     for ci, (isa, std, defs) in enumerate(cells):
         types = ["double", "float"] if tier == "quick" else ["double", "float", "int32_t", "int64_t"]
